@@ -1,5 +1,7 @@
 import PfModel.DriverVal
 import PfModel.Model.PipeCache
+import PfModel.Model.PipeCacheFail
+import PfModel.Model.PipeCacheLRU
 /-! Driver for C09 (`pipe.cached`: a cached pipeline and its uncached twin through a history; `map.elems`: the element
     computations of a map run through the shared cache). -/
 open Lean PF PF.Drv PF.Pipe PF.PipeCache
@@ -34,7 +36,7 @@ def putC (r : Option (Except Err (COutcome String (List (K × Val))))) : Json :=
   | some (.error e) => putErr e
   | some (.ok o) =>
     let base := [("value", putVal o.value), ("full", putKw o.full), ("calls", jList jStr o.calls),
-                 ("hits", jList putKey o.hits), ("puts", jList putKey o.puts)]
+                 ("hits", jList putKey o.hits), ("puts", jList putKey o.puts), ("unused", jList jStr o.unused)]
     if o.succeeded then jObj base else jObj (("err", jStr "UnusedParametersError") :: base)
 
 def putU (r : Option (Except Err Outcome)) : Json :=
@@ -42,6 +44,36 @@ def putU (r : Option (Except Err Outcome)) : Json :=
   | none => Json.null
   | some (.error e) => putErr e
   | some (.ok o) => jObj [("value", putVal o.value), ("full", putKw o.full), ("calls", jList jStr o.calls)]
+
+/-- unique function names (`WFp.names`, hypothesis of the round-2 theorems) -/
+def uniqueNamesB (fs : List Func) : Bool :=
+  let ns := fs.map (·.name)
+  ns.eraseDups.length == ns.length
+
+/-- `histC` (round 1: stops at the first failing call) is a prefix of `histF` (continues with the cache the failure left) -/
+def prefixOk (rc rf : List (Option (Except Err (COutcome String (List (K × Val)))))) : Bool :=
+  rc.length ≤ rf.length && (rc.zip rf).all fun (a, b) => (putC a).compress == (putC b).compress
+
+/-- `histF` step by step, with the keys a FAILED call added to the cache (its `puts` log is lost with the exception) -/
+def stepsF (P : Policy String (List (K × Val))) (cached : Func → Bool)
+    (ck : List Func → List (String × Val) → Func → String → Option K) :
+    List Func → List (K × Val) → List Step → List (Option (Except Err (COutcome String (List (K × Val)))) × List K)
+  | _, _, [] => []
+  | fs, c, .mutate m :: rest => (none, []) :: stepsF P cached ck (applyMut fs m) c rest
+  | fs, c, .call o kw full :: rest =>
+    let r := runTopF P cached (ck fs) fs c kw full o
+    let c' : List (K × Val) := match r with | .error (_, c') => c' | .ok out => out.cache
+    let newKeys := match r with
+      | .error _ => (c'.map (·.1)).filter fun k => !((c.map (·.1)).contains k)
+      | .ok _ => []
+    (some (dropS r), newKeys) :: stepsF P cached ck fs c' rest
+
+def putCF (x : Option (Except Err (COutcome String (List (K × Val)))) × List K) : Json :=
+  match x.1 with
+  | some (.error e) => match putErr e with
+    | Json.obj _ => (putErr e).mergeObj (jObj [("puts", jList putKey x.2)])
+    | j => j
+  | r => putC r
 
 /-- the function lists the history passes through (for the well-formedness flags) -/
 def stages : List Func → List Step → List (List Func)
@@ -59,14 +91,23 @@ def handle (m : String) (a : Json) : R Json := do
     let cached : Func → Bool := fun f => cachedNames.contains f.name
     let ck : List Func → List (String × Val) → Func → String → Option K :=
       if legacy then computeKeyLegacy encVal else computeKey encVal
-    let rc := histC (simplePolicy String) cached ck fs [] steps
+    -- {"lru_max": n}: `LRUCache(max_size=n)` (the recency-list policy, hits/misses under eviction); absent: unbounded
+    let lruMax ← optF asNat a "lru_max"
+    let P : Policy String (List (K × Val)) := match lruMax with
+      | some n => lruPolicy String n
+      | none => simplePolicy String
+    let rc0 := histC P cached ck fs [] steps
+    let rc := histF P cached ck fs [] steps
     let ru := histU fs steps
     let st := stages fs steps
     -- the last successfully modelled call's cache
     let lastCache : List (K × Val) := rc.foldl (fun acc x => match x with | some (.ok o) => o.cache | _ => acc) []
-    return jObj [("steps", jList putC rc), ("twin", jList putU ru),
+    let rf := stepsF P cached ck fs [] steps
+    return jObj [("steps", jList putCF rf), ("twin", jList putU ru),
+                 ("histf_ok", jBool (rf.length == rc.length && (rf.zip rc).all fun (a, b) => (putC a.1).compress == (putC b).compress)),
                  ("resident", jList putKey (lastCache.map (·.1))),
-                 ("stable", jBool (st.all fun fs => rankedB fs && uniqueOutB fs && consistentDefaultsB encVal fs)),
+                 ("stable", jBool (st.all fun fs => rankedB fs && uniqueOutB fs && consistentDefaultsB encVal fs && uniqueNamesB fs)),
+                 ("prefix_ok", jBool (prefixOk rc0 rc)),
                  ("roots_ok", jBool (st.all rootsAgreeB))]
   | "map.elems" =>
     -- {"elems": [{"name": f, "outs": [...], "kwargs": kw}]}: the element calls in the order they reach the cache
